@@ -36,6 +36,8 @@ type LcListener struct {
 	// SelfUnsub: the callback itself calls the unsubscribe function it got at registration (cleanup code
 	// that runs the same path whether the connection closed or the listener was dropped)
 	SelfUnsub bool `json:"self_unsub,omitempty"`
+	// Panics: the callback panics (after it has been counted): the other listeners must still be invoked
+	Panics bool `json:"panics,omitempty"`
 }
 
 type LcPlan struct {
@@ -77,7 +79,7 @@ func (lifecycleScn) Generate(g *simrt.Rng, tier string) any {
 	}
 	k := 1 + g.IntN(10)
 	for i := 0; i < k; i++ {
-		p.Listeners = append(p.Listeners, LcListener{Side: simrt.Pick(g, "client", "client", "server"), RegUs: us(), Unsub: g.Bool(0.4), UnsubUs: us(), Via: simrt.Pick(g, "conn", "context"), AtClose: g.Bool(0.4), SelfUnsub: g.Bool(0.2)})
+		p.Listeners = append(p.Listeners, LcListener{Side: simrt.Pick(g, "client", "client", "server"), RegUs: us(), Unsub: g.Bool(0.4), UnsubUs: us(), Via: simrt.Pick(g, "conn", "context"), AtClose: g.Bool(0.4), SelfUnsub: g.Bool(0.2), Panics: g.Bool(0.08)})
 	}
 	p.Shutdown = simrt.Pick(g, "client-close", "client-close", "server-close", "rst", "fin", "halfclose-stalled")
 	if p.Shutdown == "halfclose-stalled" {
@@ -399,6 +401,10 @@ func (r *lcRun) listenerTask(i int, cli mpx.Conn) {
 		if pl.SelfUnsub && unsub != nil {
 			unsub()
 			simrt.Logf("listener %d unsubscribed itself from its callback", i)
+		}
+		if pl.Panics {
+			simrt.Logf("listener %d panics in its callback", i)
+			panic(simrt.PanicSentinel{Tag: fmt.Sprintf("listener%d", i)})
 		}
 	})
 	l.registered, l.regOK, l.regDone = true, ok, max(simrt.Step(), 1)
